@@ -13,6 +13,7 @@ pub mod c15;
 pub mod c16;
 pub mod c33;
 pub mod c37;
+pub mod c38;
 pub mod c41;
 pub mod c42;
 pub mod cfgdiff;
@@ -36,8 +37,10 @@ fn table() -> Vec<(&'static str, CheckFn)> {
         ("C31", c03::run_c31),
         ("C33", c33::run),
         ("C37", c37::run),
+        ("C38", c38::run),
         ("C41", c41::run),
         ("C42", c42::run),
+        ("C43", c38::run_c43),
     ]
 }
 
